@@ -65,7 +65,7 @@ accepted downlink advances `fcnt_up` by exactly one unless it is `0xFFFF_FFFF`, 
 `SessionExpired` is reported and the counter stays; no other path of `handle_rx` touches it except the
 oversized-frame path through `rx2_complete` (`C06.handleRx_fcnt` is about that model function).  See
 `C05.tieA_handle_rx_accept`.  Builder X: for downlink-typed frames (`hup`); an uplink-typed frame leaves `fcnt_up` and
-everything else untouched (`tieA_handle_rx_uplink_typed`).  Proved in `Props/TieA/HandleRx.lean`.  Builder S: stated for the regenerated
+everything else untouched (`tieA_handle_rx_uplink_typed`).  Builder Y: and carrying the session's own DevAddr if it passes the size test (`haddr`); a fitting frame addressed to another device leaves `fcnt_up` and everything else untouched (`C05.tieA_handle_rx_other_devaddr`).  Proved in `Props/TieA/HandleRx.lean`.  Builder S: stated for the regenerated
 `handle_downlink_macs` (`TieA.Rx.Full.genOps`) on every command stream, no simulation hypothesis
 (`Props/TieA/HandleRxFull.lean`). -/
 theorem tieA_handle_rx_accept
@@ -73,13 +73,14 @@ theorem tieA_handle_rx_accept
     (rx : Gen.SessionRx.RadioBuffer) (dl : List Gen.SessionRx.Downlink) (maxp snr : Int) (ign : Bool)
     (e : Gen.SessionRx.EncryptedDataPayload)
     (hparse : rx.as_mut_for_read.parse = some e) (hup : e.is_uplink = false)
+    (haddr : ¬ (e.as_bytes.length : Int) > maxp + 5 → e.fhdr.dev_addr = gs.devaddr)
     (hw : TieA.Rx.SessWF gs) (hmax : 0 ≤ maxp ∧ maxp ≤ 255) (hwire : 0 ≤ e.fhdr.fcnt)
     (hdec : ∀ f, Gen.SessionRx.next_fcnt_down gs.fcnt_down e.fhdr.fcnt = some f → e.validate_mic (TieA.Rx.nwkOf gs) f = true →
       ∃ d, rx.as_mut_for_read.decrypt_in_place (some (TieA.Rx.nwkOf gs)) (some (TieA.Rx.appOf gs)) f = some d ∧ TieA.Rx.DecWF TieA.Rx.Full.Stream d) :
     (@Gen.SessionRx.Session.handle_rx RegionState TieA.Rx.Full.genOps D gs rs g rx dl maxp snr ign).bind
         (fun out => (TieA.Rx.respOf out.1).map (fun r => (r, TieA.Rx.sessOf out.2.1, out.2.2.1, TieA.Rx.cfgOf out.2.2.2.1, out.2.2.2.2.2.map TieA.Rx.dlOf)))
       = (sessionHandleRx (TieA.Rx.sessOf gs) (TieA.Rx.cfgOf g) rs (TieA.Rx.dataOf gs e (TieA.Rx.decOf gs rx e)) maxp.toNat snr ign).toOption.map (TieA.Rx.expect dl D) :=
-  TieA.Rx.Full.handle_rx_full D gs rs g rx dl maxp snr ign e hparse hup hw hmax hwire hdec
+  TieA.Rx.Full.handle_rx_full D gs rs g rx dl maxp snr ign e hparse hup haddr hw hmax hwire hdec
 
 /-- builder X — a buffer the parser accepts whose MType is an UPLINK type (`is_uplink()`; the device's own uplink
 echoed back, another device's uplink, any frame MIC'd with Dir = 0 under the session key): `NoUpdate`, every output is
